@@ -232,6 +232,25 @@ Theorem C18_host_history_decomposes :
 Proof. exact hticks_animation. Qed.
 Print Assumptions C18_host_history_decomposes.
 
+(* end to end on the object's API: LCD(...), any earlier animate calls and ticks, then this animate,
+   then any tick history.  The new animation (the last registered one) is an [hsteps] run from its
+   start state; it never ends when looping, ends after exactly hsteps_total <= len + 2*cols + 2 steps
+   otherwise, and under the clock hypothesis its steps are at least max(0, speed_ms) apart *)
+Theorem C18_host_object_animation_run :
+  forall (l : hlcd) (sty : style) (row : Z) (text : list Z) (speed : Z) (lp : bool)
+         (l1 : hlcd) (ev0 : list hev) (nows : list Z) (l2 : hlcd) (evs : list (list hev)),
+  hreach l -> hanimate l sty row text speed lp = Some (l1, ev0) -> hticks l1 nows = Some (l2, evs) ->
+  exists stn tr,
+    nth_error (l_anims l2) (length (l_anims l)) = Some stn /\
+    hsteps (l_cols l) (l_rows l) (hstart sty row text speed lp) nows stn tr /\
+    (lp = true -> h_active stn = true) /\
+    (lp = false -> step_count tr <= hsteps_total sty (l_cols l) text /\
+                   (h_active stn = true <-> step_count tr < hsteps_total sty (l_cols l) text) /\
+                   hsteps_total sty (l_cols l) text <= zlen text + 2 * l_cols l + 2) /\
+    (tick_times_ok nows -> rate_limited (Z.max 0 speed) (step_times tr)).
+Proof. exact host_object_animation_run. Qed.
+Print Assumptions C18_host_object_animation_run.
+
 Theorem C18_terminates_host :
   forall (cols rows : Z) (sty : style) (row : Z) (text : list Z) (speed : Z) (nows : list Z)
          (stn : hstate) (tr : list (Z * bool * list hev)),
